@@ -11,6 +11,7 @@ package main
 
 import (
 	"fmt"
+	"strings"
 	"time"
 
 	"gitlab.com/gomidi/midi/v2/internal/verifh/engine"
@@ -130,6 +131,13 @@ func play(o ls.Options, raw []byte, chunks []int, sleeps []int32, space string) 
 // fresh port (projection of the all-options run), time stamps counted from
 // its own Listen.
 func relisten(first, o ls.Options, raw []byte, chunks []int, warm []byte) {
+	report := func(sig string, o ls.Options, raw []byte, chunks []int, _ []int32, what string) {
+		if ctx.SigCount(sig) < 10 {
+			ctx.Violation(sig, map[string]interface{}{"kind": "relisten", "options": optName(o), "sysex": o.SysEx, "clock": o.TimeCode, "sense": o.ActiveSense,
+				"first_sysex": first.SysEx, "first_clock": first.TimeCode, "first_sense": first.ActiveSense,
+				"wire": engine.Hex(raw), "chunks": chunks, "warmup": engine.Hex(warm), "what": what})
+		}
+	}
 	full := ls.NewLoop(ls.All(buf))
 	rest := ls.NewLoop(first)
 	ctx.Eval()
@@ -379,14 +387,31 @@ func replay() {
 		for _, c := range l {
 			chunks = append(chunks, int(c.(float64)))
 		}
-		for _, c := range m["sleeps_ms"].([]interface{}) {
-			sleeps = append(sleeps, int32(c.(float64)))
+		if sl, ok := m["sleeps_ms"].([]interface{}); ok {
+			for _, c := range sl {
+				sleeps = append(sleeps, int32(c.(float64)))
+			}
+		}
+		for len(sleeps) < len(chunks) {
+			sleeps = append(sleeps, 0)
 		}
 	} else {
 		for range raw {
 			chunks = append(chunks, 1)
 			sleeps = append(sleeps, 0)
 		}
+	}
+	if m["kind"] == "relisten" {
+		first := ls.Options{SysEx: m["first_sysex"].(bool), TimeCode: m["first_clock"].(bool), ActiveSense: m["first_sense"].(bool), BufSize: buf}
+		relisten(first, o, raw, chunks, engine.UnHex(m["warmup"].(string)))
+		ctx.Finish("replay")
+	}
+	if sig, _ := m["signature"].(string); strings.HasPrefix(sig, "relisten:") {
+		// files written before the first listener was recorded: the whole (small) space is re-run
+		for fi := range combos() {
+			relistenSpace(fi)
+		}
+		ctx.Finish("replay")
 	}
 	play(o, raw, chunks, sleeps, "replay")
 	ctx.Finish("replay")
